@@ -14,24 +14,34 @@ EXTENDS LayoutPipe
 Base == << <<32, 1>>, <<65, 2>>, <<66, 3>>, <<67, 4>>, <<68, 5>>, <<102, 6>>, <<105, 7>>, <<108, 8>> >>
 Marks == << <<769, 11>>, <<768, 12>> >>
 
-Cm1 == [hasFull |-> FALSE, full |-> <<>>, hasBmp |-> TRUE,
-        bmp |-> Base \o Marks \o << <<64257, 9>>, <<64258, 10>> >>]
-Cm2 == [hasFull |-> FALSE, full |-> <<>>, hasBmp |-> TRUE,
-        bmp |-> Base \o Marks \o << <<64256, 13>>, <<64257, 9>>, <<64258, 10>>, <<64259, 14>>, <<64260, 15>> >>]
-\* two subtables that disagree on "D" and on the ligatures: the full-Unicode one must win
-Cm3 == [hasFull |-> TRUE,
-        full |-> << <<65, 2>>, <<66, 3>>, <<67, 4>>, <<68, 4>>, <<102, 6>>, <<105, 7>>, <<108, 8>>,
-                    <<128512, 5>>, <<64256, 13>>, <<64257, 9>>, <<769, 11>> >>,
-        hasBmp |-> TRUE, bmp |-> Base \o Marks \o << <<64257, 9>>, <<64258, 10>> >>]
-Cm4 == [hasFull |-> TRUE,
-        full |-> << <<65, 2>>, <<66, 3>>, <<102, 6>>, <<105, 7>>, <<108, 8>>, <<64259, 14>>, <<64260, 15>>,
-                    <<128512, 3>> >>,
-        hasBmp |-> FALSE, bmp |-> <<>>]
-Cm5 == [hasFull |-> FALSE, full |-> <<>>, hasBmp |-> TRUE, bmp |-> Base]
+K(p, e, ok, kind, m) == [p |-> p, e |-> e, ok |-> ok, kind |-> kind, m |-> m]
+Bmp1  == Base \o Marks \o << <<64257, 9>>, <<64258, 10>> >>
+Bmp2  == Base \o Marks \o << <<64256, 13>>, <<64257, 9>>, <<64258, 10>>, <<64259, 14>>, <<64260, 15>> >>
+\* a full-Unicode mapping that disagrees with the BMP ones on "D" and on the ligatures
+Full3 == << <<65, 2>>, <<66, 3>>, <<67, 4>>, <<68, 4>>, <<102, 6>>, <<105, 7>>, <<108, 8>>,
+            <<128512, 5>>, <<64256, 13>>, <<64257, 9>>, <<769, 11>> >>
+Full4 == << <<65, 2>>, <<66, 3>>, <<102, 6>>, <<105, 7>>, <<108, 8>>, <<64259, 14>>, <<64260, 15>>, <<128512, 3>> >>
+Bad(p, e) == K(p, e, FALSE, "bad", <<>>)     \* the harness stores one of the undecodable forms here
+
+Cm1 == << K(3, 1, TRUE, "f4", Bmp1), K(0, 3, TRUE, "f4", Bmp1) >>
+Cm2 == << K(3, 1, TRUE, "f4", Bmp2) >>
+Cm3 == << K(3, 10, TRUE, "f12", Full3), K(0, 4, TRUE, "f12", Full3), K(3, 1, TRUE, "f4", Bmp1), K(0, 3, TRUE, "f4", Bmp1) >>
+Cm4 == << K(0, 4, TRUE, "f12", Full4) >>
+Cm5 == << K(0, 3, TRUE, "f4", Base) >>
+\* preferred subtables that cannot be decoded must not hide the usable ones
+Cm6 == << Bad(3, 10), K(3, 1, TRUE, "f4", Bmp2) >>
+Cm7 == << Bad(3, 10), K(0, 4, TRUE, "f12", Full3), K(3, 1, TRUE, "f4", Bmp1) >>
+Cm8 == << Bad(3, 10), Bad(0, 4), Bad(3, 1), K(0, 3, TRUE, "f4", Bmp2) >>
+Cm9 == << Bad(0, 4), K(3, 1, TRUE, "f12", Full3), K(1, 0, FALSE, "bad", <<>>) >>
 
 W1 == <<500, 250, 600, 620, 640, 660, 300, 280, 270, 550, 560, 10, 20, 570, 800, 810>>
 W2 == <<1000, 0, 722, 667, 667, 722, 333, 278, 278, 556, 556, 0, 333, 600, 830, 830>>
 W3 == <<600, 600, 600, 600, 600, 600, 600, 600, 600, 600, 600, 600, 600, 600, 600, 600>>
+\* exactly one glyph differs: .notdef, the last glyph, one in the middle; zero widths beside
+W4 == <<500, 600, 600, 600, 600, 600, 600, 600, 600, 600, 600, 600, 600, 600, 600, 600>>
+W5 == <<600, 600, 600, 600, 600, 600, 600, 600, 600, 600, 600, 600, 600, 600, 600, 601>>
+W6 == <<600, 0, 600, 600, 600, 600, 600, 599, 600, 600, 600, 0, 0, 600, 600, 600>>
+W7 == <<600, 0, 600, 600, 600, 600, 600, 600, 600, 600, 600, 0, 0, 600, 600, 600>>
 
 ---------------------------------------------------------------------------
 (* lookups *)
@@ -87,8 +97,8 @@ Pl(a, b, c, d, e, f, k) == [gl |-> a, gf |-> b, gs |-> c, pl |-> d, pf |-> e, ps
 
 ---------------------------------------------------------------------------
 (* generation: layout *)
-GLCmapMenu  == <<Cm1, Cm2, Cm3, Cm4, Cm5>>
-GLWidthMenu == <<W1, W2, W3>>
+GLCmapMenu  == <<Cm1, Cm2, Cm3, Cm4, Cm5, Cm6, Cm7, Cm8, Cm9>>
+GLWidthMenu == <<W1, W2, W3, W4, W5, W6, W7>>
 GLMarkMenu  == << <<>>, <<11, 12>> >>
 GLPlanMenu  == << Pl(0, 0, 0, 0, 0, 0, 0), Pl(0, 0, 0, 0, 0, 0, 0), Pl(0, 0, 0, 0, 0, 0, 0), Pl(2, 2, 1, 0, 0, 0, 0), Pl(3, 3, 2, 0, 0, 0, 0),
                   Pl(0, 0, 0, 2, 2, 1, 0), Pl(0, 0, 0, 3, 2, 2, 0), Pl(2, 2, 1, 2, 2, 1, 0), Pl(3, 3, 3, 2, 2, 2, 0),
@@ -142,10 +152,9 @@ GKSwMenuG   == << Sw(TRUE, <<>>) >>
 
 ---------------------------------------------------------------------------
 (* exhaustive: layout *)
-XCm1 == [hasFull |-> FALSE, full |-> <<>>, hasBmp |-> TRUE,
-         bmp |-> << <<65, 2>>, <<66, 3>>, <<102, 6>>, <<105, 7>>, <<769, 11>>, <<64257, 9>> >>]
-XCm3 == [hasFull |-> TRUE, full |-> << <<65, 3>>, <<66, 3>>, <<102, 6>>, <<105, 7>>, <<769, 11>> >>,
-         hasBmp |-> TRUE, bmp |-> << <<65, 2>>, <<66, 3>>, <<102, 6>>, <<105, 7>>, <<64257, 9>> >>]
+XCm1 == << Bad(0, 4), K(3, 1, TRUE, "f4", << <<65, 2>>, <<66, 3>>, <<102, 6>>, <<105, 7>>, <<769, 11>>, <<64257, 9>> >>) >>
+XCm3 == << K(3, 10, TRUE, "f12", << <<65, 3>>, <<66, 3>>, <<102, 6>>, <<105, 7>>, <<769, 11>> >>),
+           K(3, 1, TRUE, "f4", << <<65, 2>>, <<66, 3>>, <<102, 6>>, <<105, 7>>, <<64257, 9>> >>) >>
 XLCmapMenu  == <<XCm1, XCm3>>
 XLWidthMenu == <<W1>>
 XLMarkMenu  == << <<>>, <<11, 12>> >>
